@@ -783,6 +783,23 @@ def r5_ensembles(chk):
                "ConformerEnsemble.load_mol2 does not build the ensemble from the molecules in file order")
     init = prog.method(ens, "__init__")
     src = norm(init.node)
-    chk.decide("self.coords = [c.coords for c in other]" in src and "self.atomic_charges = [c.atomic_charges for c in other]" in src and "n_conformers = len(other)" in src,
+    from ..canon import Env, path_conditions
+
+    ienv = Env(init.node)
+    src_p = init.params()[1]
+    # in the branch taken for a list of structures: the tables have len(list) rows, coordinates and charges are taken in list order
+    rows = []
+    for s_ in walk_no_nested(init.node):
+        if isinstance(s_, ast.Assign) and norm(s_.targets[0]) == "self._coords" and isinstance(s_.value, ast.Call) and (call_name(s_.value) or "").endswith("full") and s_.value.args \
+                and isinstance(s_.value.args[0], ast.Tuple) and any(norm(c_) == f"isinstance({src_p}, list)" for c_ in path_conditions(init.node, s_)):
+            rows.append(norm(ienv.expand(s_.value.args[0].elts[0], at=s_)))
+    lc_ok = {}
+    for s_ in walk_no_nested(init.node):
+        if isinstance(s_, ast.Assign) and norm(s_.targets[0]) in ("self.coords", "self.atomic_charges") and isinstance(s_.value, ast.ListComp) and len(s_.value.generators) == 1:
+            g_ = s_.value.generators[0]
+            attr = norm(s_.targets[0]).split(".")[1]
+            if isinstance(g_.target, ast.Name) and norm(g_.iter) == src_p and not g_.ifs and norm(s_.value.elt) == f"{g_.target.id}.{attr}":
+                lc_ok[attr] = True
+    chk.decide(rows == [f"len({src_p})"] and lc_ok.get("coords") and lc_ok.get("atomic_charges"),
                "C07.R5", f"{init.key}:list-branch", init.where(), "one conformer per list entry, coordinates and charges in list order",
                "the list constructor no longer takes one conformer per structure with coordinates and charges in list order")
